@@ -168,7 +168,7 @@ def _atom(name, payload):
     return struct.pack(">I4s", len(payload) + 8, name) + payload
 
 
-def mp4_opaque_items(d):
+def mp4_opaque_items(d, only=None):
     """append ilst items mutagen cannot interpret (two sharing one name, a malformed trkn, an unknown binary
     atom) by growing ilst into the free atom that follows it: no other size or offset changes"""
     atoms = W.mp4_atoms(d)
@@ -183,6 +183,8 @@ def mp4_opaque_items(d):
     dat = lambda fl, pl: _atom(b"data", struct.pack(">II", fl, 0) + pl)
     extra = (_atom(b"foob", dat(0, b"binary-one")) + _atom(b"foob", dat(0, b"binary-two")) +
              _atom(b"aART", _atom(b"datA", struct.pack(">II", 1, 0) + b"wheeee")) + _atom(b"trkn", _atom(b"datA", b"\x00" * 16)) + _atom(b"quux", dat(0, b"\x01\x02\x03")) + _atom(b"quux", dat(0, b"\x04")))
+    if only is not None:
+        extra = only(_atom, dat)
     if free["size"] - len(extra) < 8:
         return None
     e = ilst["off"] + ilst["size"]
